@@ -160,7 +160,7 @@ theorem collToList_NB {uns : Bool} {ie oe conv} {v : Value} {es : List Value}
     (hes : elemsOf E v = .ok es) (hm : Members es ie) :
     NB uns (applyStep E rec (.collToList oe conv) v) := by
   have hnd : oe.isDyn = false := not_isDyn_of_noDyn hdo
-  simp only [applyStep, hnd, hes]
+  simp only [applyStep, hnd, hdo, hes]
   split
   · exact NB.ok _
   · refine NB.bind (NB.ok _) fun es0 h0 => ?_
@@ -183,7 +183,7 @@ theorem collToSet_NB {uns : Bool} {ie oe conv} {v : Value} {es : List Value}
     (hes : elemsOf E v = .ok es) (hm : Members es ie) :
     NB uns (applyStep E rec (.collToSet oe conv) v) := by
   have hnd : oe.isDyn = false := not_isDyn_of_noDyn hdo
-  simp only [applyStep, hnd, hes]
+  simp only [applyStep, hnd, hdo, hes]
   refine NB.bind (NB.ok _) fun es0 h0 => ?_
   simp at h0; subst h0
   refine NB.bind (members_NB hnb hpf hwi hoi hwo hdo hm) fun es' hes' => ?_
@@ -207,7 +207,7 @@ theorem collToMap_NB {uns : Bool} {ie oe conv} {v : Value} {es : List Value}
     (hes : elemsOf E v = .ok es) (hm : Members es ie) :
     NB uns (applyStep E rec (.collToMap oe conv) v) := by
   have hnd : oe.isDyn = false := not_isDyn_of_noDyn hdo
-  simp only [applyStep, hnd, hes]
+  simp only [applyStep, hnd, hdo, hes]
   refine NB.bind (NB.ok _) fun es0 h0 => ?_
   simp at h0; subst h0
   have hfun : (fun e => applyOpt rec conv e) = fun e => (applyOpt rec conv e).map id := by
